@@ -240,7 +240,12 @@ impl AsCborValue for Header {
                 ));
             }
         }
+        // The labels of the populated typed fields are taken: an extra parameter must not repeat
+        // one of them (or another extra parameter).
         let mut seen = BTreeSet::new();
+        for (key, _) in map.iter() {
+            seen.insert(Label::from_cbor_value(key.clone())?);
+        }
         for (label, value) in self.rest.into_iter() {
             if seen.contains(&label) {
                 return Err(CoseError::DuplicateMapKey);
